@@ -66,7 +66,7 @@ func C09(c *core.Ctx, replay string) {
 	c.Assumptions = []string{"version-creating writes to one key are issued sequentially by one client (ULID order within one millisecond across processes is not relied upon)",
 		"directory-marker keys are excluded (unversioned by design)"}
 	// exhaustive: the spec's own invariants and the C09 action property on a small model
-	mc, err := tlc.Run(c.Scratch, tlc.Opts{Module: "S3GwBasic", Workers: 8, Timeout: c.PickDur(3, 10),
+	mc, err := tlc.Run(c.Scratch, tlc.Opts{Module: "S3GwBasic", Workers: 8, MemQueue: true, Timeout: c.PickDur(3, 10),
 		CfgText: basicCfg("SpecMC", "versioned", true, 0, `{"k1"}`, `{"A", "B"}`, "INVARIANT TypeOK\nPROPERTY VersionsPreserved\nCONSTRAINT Bound\nVIEW View\n")})
 	if err != nil || !mc.OK {
 		c.Inconclusive("S3GwBasic exhaustive check failed (spec bug): %v %v", err, mc.MustOK())
